@@ -204,6 +204,12 @@ type runner struct {
 	which  string // C06 | C07 | C08 : which oracle's failures are reported by this run
 	c      *lib.Ctx
 	closed bool
+	// sparse: the table is not read (Keys, Lookup, ports, reverse index) after an operation; the
+	// state is observed only by explicit `observe` lines – an observer that looks after every step
+	// hides state that is refreshed by being looked at
+	sparse   bool
+	lastOp   string
+	diverged bool
 }
 
 func (rn *runner) fail(prop, class, what string) {
@@ -221,6 +227,21 @@ func (rn *runner) fail(prop, class, what string) {
 // do applies one op on the implementation, records the observation, runs the oracles.
 func (rn *runner) do(line string) {
 	w := rn.w
+	if line == "observe" {
+		obs := w.observeState()
+		if !rn.diverged {
+			rn.res.lines = append(rn.res.lines, line)
+			rn.res.outs = append(rn.res.outs, obs)
+		}
+		links := w.links()
+		if len(links) > rn.res.maxLink {
+			rn.res.maxLink = len(links)
+		}
+		rn.oracleC06("observe (after "+rn.lastOp+")", links)
+		rn.c.Hit("observation-point")
+		return
+	}
+	rn.lastOp = line
 	before := copyCur(w.cur)
 	balBefore := w.balances()
 	ret, evs, blocked := w.apply(line)
@@ -243,7 +264,12 @@ func (rn *runner) do(line string) {
 		return
 	}
 	// Close frees unrelated symbols in map order: its events are always compared as a set
-	obs := w.observe(rn.seq && !strings.HasPrefix(line, "close"), ret, evs)
+	var obs string
+	if rn.sparse {
+		obs = ret + " E " + showEvents(rn.seq && !strings.HasPrefix(line, "close"), evs)
+	} else {
+		obs = w.observe(rn.seq && !strings.HasPrefix(line, "close"), ret, evs)
+	}
 	if strings.HasPrefix(line, "close") && strings.HasPrefix(ret, "err") {
 		// which flow fails first, and so what is left, depends on the order in which Close frees
 		// unrelated symbols: only "Close failed" is compared with the model (that fact does not
@@ -251,6 +277,9 @@ func (rn *runner) do(line string) {
 		// oracle checks the rest on the real log
 		obs = "err"
 		rn.c.Hit("close-returned-error")
+		// model and implementation may have freed different symbols: later observations of this case
+		// are checked by the oracles only, not compared with the model
+		rn.diverged = true
 	}
 	rn.res.lines = append(rn.res.lines, line)
 	rn.res.outs = append(rn.res.outs, obs)
@@ -266,16 +295,18 @@ func (rn *runner) do(line string) {
 		}
 		rn.c.Hit("event-" + string(e.k))
 	}
-	links := w.links()
-	if len(links) > rn.res.maxLink {
-		rn.res.maxLink = len(links)
+	// contents and wiring are checked after every operation (in a sparse case: at the observation
+	// points), also after one that returned an error (C06 quantifies over histories whatever the
+	// operations returned); "active = closure" only on error-free histories
+	if !rn.sparse {
+		links := w.links()
+		if len(links) > rn.res.maxLink {
+			rn.res.maxLink = len(links)
+		}
+		rn.oracleC06(line, links)
 	}
-	// contents and wiring are checked after every operation, also one that returned an error
-	// (C06 quantifies over histories whatever the operations returned); "active = closure" only
-	// on error-free histories
-	rn.oracleC06(line, links)
 	if !rn.res.hadErr {
-		rn.oracleC07(line, strings.HasPrefix(line, "close"))
+		rn.oracleC07(line, strings.HasPrefix(line, "close") && !rn.sparse)
 	}
 	rn.oracleC08(line, ret, evs, before, after, balBefore)
 }
@@ -287,12 +318,20 @@ func (rn *runner) oracleC06(line string, links []string) {
 		want = append(want, id)
 	}
 	sort.Ints(want)
-	if got := ints(w.keys()); got != ints(want) {
-		rn.fail("C06", "contents", fmt.Sprintf("after %q the table holds ids [%s], the latest inserted and not removed are [%s]", line, got, ints(want)))
-	}
-	for id, l := range w.cur {
-		if w.table().Lookup(idOf(id)) != l.sb {
-			rn.fail("C06", "contents", fmt.Sprintf("after %q Lookup(%d) is not the latest inserted symbol", line, id))
+	// Keys and Lookup are read twice in a row: the second answer must be the same
+	for round := 1; round <= 2; round++ {
+		if got := ints(w.keys()); got != ints(want) {
+			rn.fail("C06", "contents", fmt.Sprintf("after %q the table holds ids [%s] (Keys call %d), the latest inserted and not removed are [%s]", line, got, round, ints(want)))
+		}
+		for id := 1; id <= 12; id++ {
+			got := w.table().Lookup(idOf(id))
+			if l, ok := w.cur[id]; ok {
+				if got != l.sb {
+					rn.fail("C06", "contents", fmt.Sprintf("after %q Lookup(%d) is not the latest inserted symbol", line, id))
+				}
+			} else if got != nil {
+				rn.fail("C06", "contents", fmt.Sprintf("after %q Lookup(%d) yields a symbol although none is in the table under that id", line, id))
+			}
 		}
 	}
 	got := numSortJoin(append([]string{}, links...))
@@ -459,7 +498,7 @@ func (rn *runner) oracleC08(line, ret string, evs []ev, before, after map[int]*l
 	if aborted && len(evs) > 0 && evs[len(evs)-1].k == 'C' {
 		rn.fail("C08", "error-does-not-abort", fmt.Sprintf("%q: a node was closed after the lifecycle flow of symbol %d answered with an error", line, abortSubj))
 	}
-	if strings.HasPrefix(line, "close") {
+	if strings.HasPrefix(line, "close") && !rn.sparse {
 		// what Close leaves behind (independent of the order in which it frees unrelated symbols)
 		keys := rn.w.keys()
 		if !aborted {
@@ -565,6 +604,12 @@ func runLines(c *lib.Ctx, which string, lines []string) *caseResult {
 			rn.res.outs = append(rn.res.outs, "ok")
 			continue
 		}
+		if len(f) == 2 && f[0] == "mode" && f[1] == "sparse" {
+			rn.sparse = true
+			rn.res.lines = append(rn.res.lines, l)
+			rn.res.outs = append(rn.res.outs, "ok")
+			continue
+		}
 		if len(f) == 2 && f[0] == "mode" {
 			if f[1] == "reuse" {
 				rn.w.reuse = true
@@ -590,7 +635,39 @@ func runLines(c *lib.Ctx, which string, lines []string) *caseResult {
 	return rn.res
 }
 
+// genCase: a case, observed after every operation or – in 4 of 10 cases – sparsely: the table is
+// read (Keys, Lookup, ports, reverse index) only by explicit `observe` lines after every 2nd–4th
+// operation (one stride per case) and at the end, so that state which is refreshed by being looked
+// at (a memoised key list, …) is seen after several unobserved operations.
 func genCase(c *lib.Ctx, r *lib.RNG, which string) []string {
+	ops := genCaseOps(c, r, which)
+	if !r.Chance(4, 10) {
+		return ops
+	}
+	c.Hit("case-observed-sparsely")
+	stride := r.Range(2, 4)
+	var out []string
+	i := 0
+	for i < len(ops) && strings.HasPrefix(ops[i], "mode ") {
+		out = append(out, ops[i])
+		i++
+	}
+	out = append(out, "mode sparse")
+	n := 0
+	for ; i < len(ops); i++ {
+		out = append(out, ops[i])
+		n++
+		if n%stride == 0 {
+			out = append(out, "observe")
+		}
+	}
+	if out[len(out)-1] != "observe" {
+		out = append(out, "observe")
+	}
+	return out
+}
+
+func genCaseOps(c *lib.Ctx, r *lib.RNG, which string) []string {
 	var u *universe
 	flavour := map[string]int{"C06": 0, "C07": 1, "C08": 2}[which]
 	chainP := map[string]int{"C06": 3, "C07": 1, "C08": 5}[which]
@@ -784,6 +861,7 @@ func RunProp(c *lib.Ctx, which string) {
 		"a *Symbol object that is inserted again after it was freed, replaced or removed by Close behaves like a fresh one (cases of the 'reused objects' universes insert the very same object again; the model's symbols are ids, so it only says what the wiring must be)",
 		"the model has one load / unload notification per activation: the harness's table holds 1–5 load and unload hooks (2–3 TableOptions in a share of the cases, plus Add/Remove on the live table) and collapses the calls of one notification into one event only when they are exactly the registered hooks in registration order (unload: last registered first); anything else is an oracle failure [hooks]",
 		"namespaces and names are strings containing \"/\" chosen so that two different (namespace, name) pairs have the same \"<namespace>/<name>\" text; the model keys the name index by the pair",
+		"in 4 of 10 cases the table is observed sparsely (Keys / Lookup / ports / reverse index read only every 2nd–4th operation and at the end, the model stepped through every operation and compared at those points); return values and hook / node events are compared after every operation in all cases",
 		"names are unique per namespace among live symbols (generator enforces it; it is what the runtime's unique index gives the table); each port reference has exactly one of id / name; ids are non-nil",
 		"port names are canonical (no use of the alias out == out[0] of OneToManyNode); no spec names the error port",
 		"lifecycle targets answer every packet (harness nodes always answer; a target that never answers blocks exec in Go and is outside the model)",
